@@ -164,7 +164,11 @@ def replace_ref(text, oldvalue, newvalue="n/a"):
     # p1/p2 contain the parentheses directly surrounding the tag
     # All four groups can have spaces.
     pattern = r'(?P<c1>[\s,]*)(?P<p1>[(\s]*)' + re.escape(oldvalue) + r'(?P<p2>[\s)]*)(?P<c2>[\s,]*)'
-    return re.sub(pattern, _remover, text)
+    # One reference at a time: a match takes the delimiters around it, which a neighbouring reference has to see as well.
+    count = 1
+    while count:
+        text, count = re.subn(pattern, _remover, text, count=1)
+    return text
 
 
 def _handle_curly_braces_refs(df, refs, column_names):
